@@ -32,10 +32,14 @@ PROP = {
     "rule": "one case = a random walk of 4–9 steps over two table names (plus a scratch name): CREATE TABLE in autocommit, inside a "
             "session that commits (observed from outside before and after the commit) or rolls back / is dropped (the name must stay "
             "free); INSERTs; sessions with DML that commit or roll back while another table is read (frame); DROP TABLE and re-CREATE "
-            "of the name with another shape, also inside one committed session; ADD / DROP COLUMN on tables that never held a row; "
+            "of the name with another shape, also inside one committed session; DROP TABLE inside a session that rolls back / is "
+            "dropped, or committed while another open session reads the table; ADD / DROP COLUMN on tables that never held a row; "
             "SET / DROP NOT NULL in autocommit or a committed session followed by a NULL insert; CREATE UNIQUE INDEX / ADD CONSTRAINT "
             "followed by a duplicate; statements on missing names and DDL that must be refused; a reader that began before a CREATE "
-            "committed; reopen, also with an open session holding DML and DDL. At most one finding feature per case (tags `kf:…`). "
+            "committed; reopen, also with an open session holding DML and DDL. A further family (60 / 600 cases): DROP TABLE in a session that rolls back or is dropped, then — after reads, an insert or a "
+            "reopen — a DROP TABLE that commits, the name probed, created again with another shape and read, also across reopen. "
+            "And (40 / 400 cases) CREATE UNIQUE INDEX / ADD CONSTRAINT over colliding rows: refused, the table stays usable, the DDL "
+            "succeeds once the duplicates are deleted. At most one finding feature per case (tags `kf:…`). "
             "Non-trivial (`nt`) = a DDL statement inside a transaction that rolls back, or DML on a table altered earlier in the case.",
     "assumptions": [
         "in the model ADD / DROP COLUMN re-write the rows the altering transaction sees; rows inserted by a transaction that is "
@@ -44,7 +48,8 @@ PROP = {
         "physical index relations of the code are not modelled",
         "SET DATA TYPE is not exercised (the parser accepts it, rows are never converted)",
         "the model's descriptor heap is append-only; space reclamation of dropped tables is C11/C13 territory",
-        "cases keep the number of catalog entries below six (see finding catalog-pressure): beyond it the catalog's own B+tree page breaks",
+        "one case in three lets the catalog grow beyond six entries (tag `catalog_pressure`: catalog entries then grow in a full "
+        "meta page, which broke the catalog's B+tree until main's 9fb3e8e)",
     ],
     "partial": "ddl_atomic_with_txn is proved as: refinement on all histories (ddl_refines) + invisibility until commit + abort / refused "
                "commit publish nothing + commit publishes everything at once + store-level erasure; the history-level erasure of C03 "
@@ -65,12 +70,16 @@ TEXT = {
             "removed; a dropped name can be re-created at once. Tied to the code by ~600 (quick) / 6 000 (thorough) generated DDL/DML "
             "histories with reopen through the public API.",
     "design_ref": "DESIGN.md §5 C15",
-    "note": "Holds for the specification model. One defect repaired by a fix: commit (ADD COLUMN always failed). Listed findings: ALTER "
-            "inside a rolled-back transaction stays (exact, flag updateKeepsInserterXmin, pinned), two open transactions create the "
-            "same name and both commit (exact for the commit, region for what follows); regions: ADD / DROP COLUMN on a table that "
-            "physically holds rows (rows are decoded with the new schema: errors or shifted values), DROP TABLE frees the table's pages "
-            "at once (rollback cannot bring it back, concurrent readers fail), CREATE UNIQUE INDEX / ADD CONSTRAINT in a rolled-back "
-            "transaction leaves the table pointing to an index that does not exist, and the catalog's own B+tree page breaks after "
-            "about six catalog entries when an entry grows (every name stops resolving).",
+    "note": "Holds for the specification model. Repaired by fix: commits: ADD COLUMN always failed; two open transactions creating the "
+            "same name both committed (the second creator is now refused, and the first one's entry in the name index is no longer replaced); DROP TABLE freed the pages at once (rollback could not "
+            "bring the table back, concurrent readers failed); the catalog's own B+tree page broke after about six entries; a CREATE UNIQUE INDEX / ADD CONSTRAINT failing on colliding "
+            "rows left the table pointing to a missing index. Listed "
+            "findings: ALTER inside a rolled-back transaction stays (exact, flag updateKeepsInserterXmin, pinned); the check at commit "
+            "compares created names instead of re-checking the catalog (exact, flag commitChecksInsertedKeysOnly: create + drop in one "
+            "transaction still blocks the name); first creator wins on relation names (exact, flag createRefusedWhileNameHeld: CREATE TABLE "
+            "is refused with a conflict while an unseen, not rolled-back transaction holds the name — the specification refuses the "
+            "second COMMIT instead); regions: ADD / DROP COLUMN on a table that "
+            "physically holds rows (rows are decoded with the new schema: errors or shifted values), CREATE UNIQUE INDEX / ADD "
+            "CONSTRAINT in a rolled-back transaction leaves the table pointing to an index that does not exist.",
     "technique": "Lean 4 refinement proof (catalog as versioned data, reuse of the C04 simulation) + invariant + differential correspondence",
 }
